@@ -380,6 +380,15 @@ func solveAll(obls []*Obligation, timeout int, seed int, agree bool, par int) []
 				tmo = 6
 			}
 			sr := Solve(q, tmo, seed, agree && o.Kind == "prove")
+			if o.Kind == "prove" && !agree && sr.Status != "unsat" && sr.Status != "sat" && sr.Status != "contradiction" {
+				// undecided within the limit: quantifier instantiation is sensitive to the random
+				// seed, so one more attempt with another seed before the obligation counts as
+				// undecided (a timeout that depends on the seed must not become an alarm)
+				if sr2 := Solve(q, (tmo+1)/2, seed+7919, false); sr2.Status == "unsat" || sr2.Status == "sat" {
+					sr2.Answers = append(sr.Answers, sr2.Answers...)
+					sr = sr2
+				}
+			}
 			_ = t0
 			r.Solve = sr
 			switch o.Kind {
